@@ -169,3 +169,15 @@ proofs/IterQueryProofs.vos proofs/IterQueryProofs.vok proofs/IterQueryProofs.req
 properties/C07.vo properties/C07.glob properties/C07.v.beautified properties/C07.required_vo: properties/C07.v gen/Params.vo model/Bytes.vo model/Crc32c.vo model/Id.vo model/Node.vo model/BSearch.vo model/Closest.vo model/IterQuery.vo proofs/ClosestProofs.vo proofs/IterQueryProofs.vo
 properties/C07.vio: properties/C07.v gen/Params.vio model/Bytes.vio model/Crc32c.vio model/Id.vio model/Node.vio model/BSearch.vio model/Closest.vio model/IterQuery.vio proofs/ClosestProofs.vio proofs/IterQueryProofs.vio
 properties/C07.vos properties/C07.vok properties/C07.required_vos: properties/C07.v gen/Params.vos model/Bytes.vos model/Crc32c.vos model/Id.vos model/Node.vos model/BSearch.vos model/Closest.vos model/IterQuery.vos proofs/ClosestProofs.vos proofs/IterQueryProofs.vos
+model/Modes.vo model/Modes.glob model/Modes.v.beautified model/Modes.required_vo: model/Modes.v model/Bytes.vo
+model/Modes.vio: model/Modes.v model/Bytes.vio
+model/Modes.vos model/Modes.vok model/Modes.required_vos: model/Modes.v model/Bytes.vos
+model/Check18.vo model/Check18.glob model/Check18.v.beautified model/Check18.required_vo: model/Check18.v model/Bytes.vo model/PutQuery.vo model/Check08.vo model/Modes.vo
+model/Check18.vio: model/Check18.v model/Bytes.vio model/PutQuery.vio model/Check08.vio model/Modes.vio
+model/Check18.vos model/Check18.vok model/Check18.required_vos: model/Check18.v model/Bytes.vos model/PutQuery.vos model/Check08.vos model/Modes.vos
+proofs/ModesProofs.vo proofs/ModesProofs.glob proofs/ModesProofs.v.beautified proofs/ModesProofs.required_vo: proofs/ModesProofs.v model/Bytes.vo model/Modes.vo
+proofs/ModesProofs.vio: proofs/ModesProofs.v model/Bytes.vio model/Modes.vio
+proofs/ModesProofs.vos proofs/ModesProofs.vok proofs/ModesProofs.required_vos: proofs/ModesProofs.v model/Bytes.vos model/Modes.vos
+properties/C18.vo properties/C18.glob properties/C18.v.beautified properties/C18.required_vo: properties/C18.v model/Bytes.vo model/Modes.vo proofs/ModesProofs.vo
+properties/C18.vio: properties/C18.v model/Bytes.vio model/Modes.vio proofs/ModesProofs.vio
+properties/C18.vos properties/C18.vok properties/C18.required_vos: properties/C18.v model/Bytes.vos model/Modes.vos proofs/ModesProofs.vos
